@@ -1586,6 +1586,22 @@ def instances(tier: str) -> List[Tuple[str, tuple, dict, Callable[..., Callable[
     if deep:
         I += [("slalom", (3, 4, (0, 0), [[False] * 4, [False, True, True, False], [False] * 4], [(0, 1, 1, 1, 0), (0, 2, 1, 1, 2), (2, 2, 1, 1, 0)]), {}, rule_slalom),
               ("slalom", (4, 3, (3, 2), [[False] * 3, [False, True, False], [False, True, False], [False] * 3], [(1, 0, 0, 1, 1), (2, 2, 0, 1, 0)]), {}, rule_slalom)]
+    # boards of at most four cells on which *every* cell may belong to the connected set (all white / one colour / all numbered): they are
+    # run a second time through the rank encodings (see run()), where a rank domain that is one short for an even number of cells,
+    # or a root rule that fails for the full vertex set, shows as a lost solution
+    I += [("heyawake", (1, 2, [[(0, 0), (0, 1)]], [0]), {}, rule_heyawake),
+          ("heyawake", (2, 2, [[(0, 0), (0, 1), (1, 0), (1, 1)]], [-1]), {}, rule_heyawake),
+          ("heyawake", (1, 4, [[(0, 0), (0, 1)], [(0, 2), (0, 3)]], [-1, -1]), {}, rule_heyawake),
+          ("heyawake", (4, 1, [[(0, 0), (1, 0)], [(2, 0), (3, 0)]], [-1, 0]), {}, rule_heyawake),
+          ("creek", (1, 2, [[-1, -1, -1], [-1, -1, -1]]), {}, rule_creek),
+          ("creek", (2, 2, [[-1, -1, -1], [-1, -1, -1], [-1, -1, -1]]), {}, rule_creek),
+          ("creek", (1, 4, [[-1, -1, 0, -1, -1], [-1, -1, -1, -1, -1]]), {}, rule_creek),
+          ("yinyang", (1, 2, [[0, 0]]), {}, rule_yinyang),
+          ("yinyang", (1, 4, [[0, 0, 0, 0]]), {}, rule_yinyang),
+          ("yinyang", (2, 2, [[0, 0], [0, 0]]), {}, rule_yinyang),
+          ("nanro", (1, 2, [[(0, 0), (0, 1)]], [[0, 0]]), {}, rule_nanro),
+          ("nanro", (1, 4, [[(0, 0), (0, 1), (0, 2), (0, 3)]], [[0, 0, 0, 0]]), {}, rule_nanro),
+          ("view", (1, 2, [[-1, -1]]), {}, rule_view)]
     # the cells of a room may be listed in any order: every room puzzle is also run with each room's cells listed backwards
     # (quick: the first two instances of each puzzle)
     seen_rooms: Dict[str, int] = {}
